@@ -210,7 +210,7 @@ def mk_step(proc, s, log):
     if proc == 'printer':
         return DF.printer(resources=s, header_print=lambda h, kw: log.append(h), table_print=lambda d, kw: None)
     if proc == 'set_type':
-        return DF.set_type('b', type='number', resources=s)
+        return DF.set_type('b', type='number', transform=lambda v: None if v is None else v + 1000, resources=s)     # the transform makes the touched rows visible
     if proc == 'sort_rows':
         return DF.sort_rows('{b}', resources=s)
     if proc == 'filter_rows':
@@ -324,7 +324,21 @@ def run_impl(case):
     if case.get('dup'):
         pre = [DF.duplicate(source=names[0], target_name=names[-1], target_path=names[-1] + '.csv', duplicate_to_end=True)]
     out = canon(run_stream(res, pre + [step_sel], rerun=(proc != 'printer')))      # the printer's output is collected in one log
-    return {'base': base, 'all': alls, 'out': out, 'printed': log}
+    r = {'base': base, 'all': alls, 'out': out, 'printed': log}
+    if not case.get('dup') and proc != 'printer' and 'error' not in out:
+        # a step object that has already run on this package, used again in a flow over a larger package, must behave
+        # like a fresh step given the same selector
+        try:
+            bigger = resources_for(['zz_front'] + names + ['zz_back'])
+            reused = canon(run_stream(bigger, [step_sel], rerun=False))
+            fresh = canon(run_stream(bigger, [mk_step(proc, sel, [])], rerun=False))
+            r['reuse_same'] = reused == fresh
+            if not r['reuse_same']:
+                r['reuse_diff'] = [str(reused)[:200], str(fresh)[:200]]
+        except Exception as e:
+            r['reuse_same'] = False
+            r['reuse_diff'] = ['%s: %s' % (type(e).__name__, str(e)[:150]), '']
+    return r
 
 
 E_INDEX = 5
@@ -388,6 +402,8 @@ def oracle(case, out):
         if 'error' in out:
             return 'matcher: selector rejected (%s)' % out['exc']
         return None if out['selected'] == sp else 'matcher: selected %r, the selector means %r' % (out['selected'], sp)
+    if out.get('reuse_same') is False:
+        return '%s: the step object, used again in a flow over a larger package, behaves differently from a fresh step: %r' % (proc, out.get('reuse_diff'))
     if 'error' in out:
         if sp is None:
             return None
